@@ -136,26 +136,41 @@ fn stamp(entries: &[tarfmt::Entry], v: (u8, u8, u8)) -> Vec<u8> {
 	tarfmt::build(&list)
 }
 
-fn version_case(input: &[u8], v: (u8, u8, u8)) -> Result<u64, (String, String)> {
-	let entries = tarfmt::entries(input).map_err(|m| ("model".to_string(), m))?;
-	let bytes = stamp(&entries, v);
-	version_verdict(&bytes, v)
+/// the format version the writer stamped into this archive
+fn written_version(entries: &[tarfmt::Entry]) -> Result<(u8, u8, u8), (String, String)> {
+	let pj = entries.iter().find(|x| x.name == "peppi.json").ok_or_else(|| ("model".to_string(), "no peppi.json".to_string()))?;
+	let v: serde_json::Value = serde_json::from_slice(&pj.data).map_err(|e| ("model".to_string(), e.to_string()))?;
+	let a = v["version"].as_array().ok_or_else(|| ("model".to_string(), "peppi.json has no version array".to_string()))?;
+	let g = |i: usize| a.get(i).and_then(|x| x.as_u64()).unwrap_or(0) as u8;
+	Ok((g(0), g(1), g(2)))
 }
 
-fn version_verdict(bytes: &[u8], v: (u8, u8, u8)) -> Result<u64, (String, String)> {
+fn version_case(input: &[u8], v: (u8, u8, u8)) -> Result<u64, (String, String)> {
+	let entries = tarfmt::entries(input).map_err(|m| ("model".to_string(), m))?;
+	let cur = written_version(&entries)?;
+	let bytes = stamp(&entries, v);
+	version_verdict(&bytes, v, cur)
+}
+
+/// below the minimum (2.0.0): must be refused. From the minimum up to the version the writer itself
+/// stamps: must be read. Above that (a format of the future): the statement is silent - refused, or
+/// read as the same game.
+fn version_verdict(bytes: &[u8], v: (u8, u8, u8), cur: (u8, u8, u8)) -> Result<u64, (String, String)> {
 	let too_old = v < (2, 0, 0);
+	let future = v > cur;
 	match (too_old, read_slpp(bytes, true)) {
 		(true, Err(Fail::Err(_))) => Ok(0),
 		(false, Ok(_)) => Ok(1),
 		(true, Ok(_)) => Err(("accepted-old-format".into(), format!("an archive of format version {}.{}.{} (< 2.0.0) was accepted", v.0, v.1, v.2))),
-		(false, Err(Fail::Err(m))) => Err(("rejected-supported-format".into(), format!("an archive of format version {}.{}.{} (>= 2.0.0) was rejected: {}", v.0, v.1, v.2, m))),
+		(false, Err(Fail::Err(_))) if future => Ok(2),
+		(false, Err(Fail::Err(m))) => Err(("rejected-supported-format".into(), format!("an archive of format version {}.{}.{} (between the minimum 2.0.0 and the version {}.{}.{} the writer stamps) was rejected: {}", v.0, v.1, v.2, cur.0, cur.1, cur.2, m))),
 		(_, Err(Fail::Panic(pn))) => Err((pn.key(), format!("panic: {}", pn.msg))),
 	}
 }
 
 pub fn run() {
 	let cx = ctx();
-	cx.note("rule", json!("archives of the corner list (base, zero frames, no/empty metadata, no end, double end, gecko, nothing) per layout-class representative x {none, LZ4, ZSTD} x hash {off,on}, inspected with the harness's own tar reader: signature at offset 0, entry order, every JSON entry valid and equal to the rendering of what peppi::read reconstructs, raw entries equal to the raw blocks, two writes byte-identical; plus 1,101 metadata sizes growing byte by byte over more than two tar blocks (every entry length modulo 512); unknown entries (names x, zz.json, frames.arrow.bak, empty name-ish, 3 KB) inserted at EVERY position before frames.arrow, singly and in pairs: game unchanged; peppi.json rewritten (own tar writer, checksum recomputed) with format version triples: quick all (major,minor) at patch 0 and all triples over {0,1,2,3,255}; thorough ALL 2^24: read is Err iff triple < (2,0,0). Every case non-trivial; distinct by construction"));
+	cx.note("rule", json!("archives of the corner list (base, zero frames, no/empty metadata, no end, double end, gecko, nothing) per layout-class representative x {none, LZ4, ZSTD} x hash {off,on}, inspected with the harness's own tar reader: signature at offset 0, entry order, every JSON entry valid and equal to the rendering of what peppi::read reconstructs, raw entries equal to the raw blocks, two writes byte-identical; plus 1,101 metadata sizes growing byte by byte over more than two tar blocks (every entry length modulo 512); unknown entries (names x, zz.json, frames.arrow.bak, empty name-ish, 3 KB) inserted at EVERY position before frames.arrow, singly and in pairs: game unchanged; peppi.json rewritten (own tar writer, checksum recomputed) with format version triples: quick all (major,minor) at patch 0 and all triples over {0,1,2,3,255}; thorough ALL 2^24: read is Err for every triple < (2,0,0), Ok for every triple from 2.0.0 up to the version the writer stamps, and for later versions (on which the statement is silent) Err or Ok. Every case non-trivial; distinct by construction"));
 	cx.note("exhaustive", json!(true));
 	cx.note("assumptions", json!(["for a game without frames the statement leaves the presence of frames.arrow open: both accepted"]));
 	let versions = if cx.quick() { vec![(0, 1), (1, 3), (2, 0), (2, 2), (3, 0), (3, 3), (3, 7), (3, 13), (3, 16)] } else { spec::v_rep() };
@@ -241,6 +256,11 @@ pub fn run() {
 	z.metadata = None;
 	let arch = Arc::new(mk_archive(&z, 0));
 	let entries = Arc::new(tarfmt::entries(&arch).unwrap());
+	let cur = written_version(&entries).unwrap_or_else(|(_, m)| machinery(&format!("C18: {}", m)));
+	if cur < (2, 0, 0) {
+		machinery("C18: the writer stamps a format version below 2.0.0");
+	}
+	cx.note("written_format_version", json!([cur.0, cur.1, cur.2]));
 	let quick = cx.quick();
 	let arch2 = arch.clone();
 	par_each(0..65536u32, move |mm, local| {
@@ -258,7 +278,7 @@ pub fn run() {
 			local.nontrivial += 1;
 			local.outcomes.insert(fnv_mix(11, (v < (2, 0, 0)) as u64));
 			local.states.insert(fnv_mix(11, (v < (2, 0, 0)) as u64));
-			if let Err((_, first)) = version_verdict(&bytes, v) {
+			if let Err((_, first)) = version_verdict(&bytes, v, cur) {
 				let mut p = P { class: "format-version", ..Default::default() };
 				p.n = [ma as i64, mi as i64, pa as i64, 0, 0, 0];
 				local.evaluations -= 1;
